@@ -14,21 +14,7 @@ verus! {
 #[verifier::reject_recursive_types(R)]
 //@@ enditem
 
-pub open spec fn is_ws(b: u8) -> bool { b == 0x20 || b == 0x0a || b == 0x09 || b == 0x0d }
-pub open spec fn is_digit(b: u8) -> bool { 0x30 <= b <= 0x39 }
-
-// length of the maximal prefix of delivered bytes that are white space / decimal digits
-pub open spec fn ws_run(s: Seq<Option<u8>>) -> nat
-    decreases s.len()
-{
-    if s.len() > 0 && s[0] is Some && is_ws(s[0].unwrap()) { 1 + ws_run(s.subrange(1, s.len() as int)) } else { 0 }
-}
-pub open spec fn digit_run(s: Seq<Option<u8>>) -> nat
-    decreases s.len()
-{
-    if s.len() > 0 && s[0] is Some && is_digit(s[0].unwrap()) { 1 + digit_run(s.subrange(1, s.len() as int)) } else { 0 }
-}
-pub open spec fn unwrap_all(s: Seq<Option<u8>>) -> Seq<u8> { Seq::new(s.len(), |i: int| s[i].unwrap()) }
+//@@ include lemmas/reader_spec.rs
 
 impl<R: Read> Reader<R> {
     // ---- ghost view
@@ -50,66 +36,19 @@ impl<R: Read> Reader<R> {
 //@@ fn reader.next = src/reader.rs :: impl<R: Read> Reader<R> :: fn next
 //@@ safety C05
 //@@ ret r
-//@@ header
-    requires old(self).wf(), old(self).room(),
-    ensures
-        final(self).wf(), final(self).room(), // @obl R.next.wf : C05 C17
-        final(self).name() == old(self).name(), // @obl R.next.name : C17
-        // end of input: Ok(None), nothing moves, and it stays that way
-        old(self).rest().len() == 0 ==> r is Ok && r.unwrap() is None && final(self).rest().len() == 0 && final(self).cur() is None
-            && final(self).line() == old(self).line() && final(self).col() == old(self).col(), // @obl R.next.eof : C01 C16 C17
-        // a failing read is an Err: never end of input, never a byte; nothing is consumed from the look-ahead
-        old(self).rest().len() > 0 && old(self).rest()[0] is None ==> r is Err && final(self).cur() == old(self).cur()
-            && final(self).line() == old(self).line() && final(self).col() == old(self).col()
-            && final(self).rest() == old(self).rest().subrange(1, old(self).rest().len() as int), // @obl R.next.ioerr : C16
-        // a delivered byte becomes the look-ahead byte, exactly one stream element is consumed
-        old(self).rest().len() > 0 && old(self).rest()[0] is Some ==> r is Ok && r.unwrap() == old(self).rest()[0]
-            && final(self).cur() == old(self).rest()[0]
-            && final(self).rest() == old(self).rest().subrange(1, old(self).rest().len() as int), // @obl R.next.byte : C01 C05 C17
-        // line / column: LF starts a new line at column 1, every other byte advances the column by one
-        old(self).rest().len() > 0 && old(self).rest()[0] == Some(0x0au8) ==> final(self).line() == old(self).line() + 1 && final(self).col() == 1, // @obl R.next.lf : C17
-        old(self).rest().len() > 0 && old(self).rest()[0] is Some && old(self).rest()[0] != Some(0x0au8) ==> final(self).line() == old(self).line() && final(self).col() == old(self).col() + 1, // @obl R.next.col : C17
-        r is Ok ==> (r.unwrap() is None <==> old(self).rest().len() == 0), // @obl R.next.none_iff_eof : C01 C16
-        // seen through the look-ahead: with a current byte, a successful next() drops exactly the head of the pending bytes
-        r is Ok && old(self).cur() is Some ==> final(self).pending() =~= old(self).pending().subrange(1, old(self).pending().len() as int), // @obl R.next.pending : C01 C05
-        r is Err ==> final(self).mu() < old(self).mu(), // @obl R.next.err_progress : C05
+//@@ header-from specs/reader/next.spec
 //@@ endfn
 
 //@@ fn reader.peek = src/reader.rs :: impl<R: Read> Reader<R> :: fn peek
 //@@ safety C05
 //@@ ret r
-//@@ header
-    requires old(self).wf(), old(self).room(),
-    ensures
-        final(self).wf(), final(self).room(), final(self).name() == old(self).name(),
-        // with a look-ahead byte: return it, change nothing
-        old(self).cur() is Some ==> r is Ok && r.unwrap() == old(self).cur() && final(self).cur() == old(self).cur() && final(self).rest() == old(self).rest()
-            && final(self).line() == old(self).line() && final(self).col() == old(self).col(), // @obl R.peek.keep : C01 C17
-        // without: behaves as next()
-        old(self).cur() is None && old(self).rest().len() == 0 ==> r is Ok && r.unwrap() is None && final(self).rest().len() == 0 && final(self).cur() is None
-            && final(self).line() == old(self).line() && final(self).col() == old(self).col(), // @obl R.peek.eof : C01 C16
-        old(self).cur() is None && old(self).rest().len() > 0 && old(self).rest()[0] is None ==> r is Err && final(self).cur() is None
-            && final(self).rest() == old(self).rest().subrange(1, old(self).rest().len() as int), // @obl R.peek.ioerr : C16
-        old(self).cur() is None && old(self).rest().len() > 0 && old(self).rest()[0] is Some ==> r is Ok && r.unwrap() == old(self).rest()[0] && final(self).cur() == old(self).rest()[0]
-            && final(self).rest() == old(self).rest().subrange(1, old(self).rest().len() as int), // @obl R.peek.pull : C01 C17
-        r is Ok ==> r.unwrap() == final(self).cur() && final(self).pending() == old(self).pending(), // @obl R.peek.pending : C01 C05
-        r is Ok && r.unwrap() is None ==> final(self).mu() == 0, // @obl R.peek.none_is_end : C01 C16
-        r is Err ==> final(self).mu() < old(self).mu(), // @obl R.peek.err_progress : C05
+//@@ header-from specs/reader/peek.spec
 //@@ endfn
 
 //@@ fn reader.eat_whitespace = src/reader.rs :: impl<R: Read> Reader<R> :: fn eat_whitespace
 //@@ safety C05
 //@@ ret r
-//@@ header
-    requires old(self).wf(), old(self).room(),
-    ensures
-        final(self).wf(), final(self).room(), final(self).name() == old(self).name(),
-        // consumes exactly the maximal run of white space; the byte after it is the current byte
-        r is Ok ==> final(self).pending() == old(self).pending().subrange(ws_run(old(self).pending()) as int, old(self).pending().len() as int), // @obl R.ws.exact : C01 C06 C17
-        r is Ok ==> (final(self).cur() is None ==> final(self).mu() == 0), // @obl R.ws.end : C01
-        r is Ok && final(self).cur() is Some ==> !is_ws(final(self).cur().unwrap()), // @obl R.ws.stop : C01
-        r is Err ==> final(self).mu() < old(self).mu(), // @obl R.ws.ioerr : C16 C05
-        final(self).mu() <= old(self).mu(),
+//@@ header-from specs/reader/eat_whitespace.spec
 //@@ loop 1
         invariant
             self.wf(), self.room(), self.name() == old(self).name(),
@@ -122,16 +61,7 @@ impl<R: Read> Reader<R> {
 //@@ fn reader.read_digits = src/reader.rs :: impl<R: Read> Reader<R> :: fn read_digits
 //@@ safety C05
 //@@ ret r
-//@@ header
-    requires old(self).wf(), old(self).room(),
-    ensures
-        final(self).wf(), final(self).room(), final(self).name() == old(self).name(),
-        r is Ok ==> final(self).pending() == old(self).pending().subrange(digit_run(old(self).pending()) as int, old(self).pending().len() as int), // @obl R.digits.exact : C01 C19
-        r is Ok ==> final(digits)@ == old(digits)@.add(unwrap_all(old(self).pending().subrange(0, digit_run(old(self).pending()) as int))), // @obl R.digits.copied : C01 C19
-        r is Ok ==> (final(self).cur() is None ==> final(self).mu() == 0), // @obl R.digits.end : C01
-        r is Ok && final(self).cur() is Some ==> !is_digit(final(self).cur().unwrap()), // @obl R.digits.stop : C01
-        r is Err ==> final(self).mu() < old(self).mu(), // @obl R.digits.ioerr : C16 C05
-        final(self).mu() <= old(self).mu(),
+//@@ header-from specs/reader/read_digits.spec
 //@@ loop 1
         invariant
             self.wf(), self.room(), self.name() == old(self).name(),
@@ -145,8 +75,7 @@ impl<R: Read> Reader<R> {
 //@@ fn reader.where_am_i = src/reader.rs :: impl<R: Read> Reader<R> :: fn where_am_i
 //@@ safety C05
 //@@ ret r
-//@@ header
-    ensures r.line_number as int == self.line() && r.char_number as int == self.col() && r.input == self.name(), // @obl R.where : C17
+//@@ header-from specs/reader/where_am_i.spec
 //@@ endfn
 
 }
